@@ -29,10 +29,14 @@ var tags = []byte{
 	0xE0, 0xE1, 0xE2, // b64T dns b64S
 }
 
-func do(c []byte, class, note string) *cfgx.Result {
+func do(c []byte, class, note string) *cfgx.Result { return doX(c, "", class, note) }
+
+// doX: cexpr (optional) is a Coq expression denoting c (big configs are named once per shard
+// and their truncations / single-byte changes are written take k base / upd base k v).
+func doX(c []byte, cexpr, class, note string) *cfgx.Result {
 	r := cfgx.Run(c)
 	desc := r.Desc(note)
-	out.Add(r.CoqTerm(""), class, len(c) >= 2, desc)
+	out.Add(r.CoqTerm(cexpr), class, len(c) >= 2, desc)
 	r.Oracle(cfgx.TagName(c), func(what, key string) { out.Fail(what, key, desc) })
 	return r
 }
@@ -193,19 +197,33 @@ func lengthFields(c []byte) []int {
 func main() {
 	fl := vh.ParseFlags()
 	out = vh.NewOut("C09", fl, "From XMT Require Import Base.Prelude Model.Cfg.", "case", "check",
-		"byte strings through Validate/Build/Groups/Group/MarshalBinary/String/MarshalJSON/next: exhaustive strings of length <= 3 over the 38 setting tags + {0,1,2,5,255}, "+
+		"byte strings through Validate/Build/Groups/Group/MarshalBinary/String/MarshalJSON/next: exhaustive strings of length <= 2 (quick: a sample of length 3, thorough: all) over the 38 setting tags + {0,1,2,5,255}, "+
 			"valid configs from every constructor, every truncation and every change of each length/count/tag byte of those, random splices, random tag-alphabet strings; "+
 			"distinct = distinct Coq case term, non-trivial = at least two bytes (a tag and something interpreted relative to it)")
-	out.ShardSize = 1500
+	out.ShardSize = 400
 	rng := vh.NewRand(fl.Seed)
 	thorough := fl.Tier == "thorough"
-	tls, err := cfgx.LoadTLS(filepath.Join(filepath.Dir(filepath.Dir(fl.Out)), "build", "cfg_tls"))
+	tls, err := cfgx.LoadTLS(filepath.Join(filepath.Dir(fl.Out), "cfg_tls"))
 	if err != nil {
-		// fl.Out is build/c09_run: fall back to a directory next to it
-		tls, err = cfgx.LoadTLS(filepath.Join(filepath.Dir(fl.Out), "cfg_tls"))
-		if err != nil {
-			panic(err)
+		panic(err)
+	}
+
+	// valid configs; the big ones are named once in the preamble of every shard
+	vs := valid(tls)
+	names := make([]string, len(vs))
+	pre := out.Imports
+	for k, v := range vs {
+		if len(v.c) > 100 {
+			names[k] = fmt.Sprintf("base_%d", k)
+			pre += fmt.Sprintf("\nDefinition %s : list Z := %s.", names[k], vh.Bytes(v.c))
 		}
+	}
+	out.Imports = pre
+	expr := func(k int, f string, a ...interface{}) string {
+		if names[k] == "" {
+			return ""
+		}
+		return fmt.Sprintf(f, a...)
 	}
 
 	// 1. regression corpus
@@ -214,15 +232,16 @@ func main() {
 	}
 	do(nil, "regression", "empty")
 	// 2. valid configs
-	vs := valid(tls)
-	for _, v := range vs {
-		r := do(v.c, "valid", v.name)
+	for k, v := range vs {
+		r := doX(v.c, names[k], "valid", v.name)
 		if r.Validate.Class != 0 || r.Build.Class != 0 {
 			out.Note("corpus config " + v.name + " does not validate/build: " + r.Validate.String() + " / " + r.Build.String())
 		}
-		if len(v.c) < 400 {
-			for i := 0; i < len(v.c); i++ {
-				doNext(v.c, i)
+		if len(v.c) < 100 {
+			for i := -1; i <= len(v.c)+1; i++ {
+				if thorough || i < 3 || i%3 == 0 || i >= len(v.c)-1 {
+					doNext(v.c, i)
+				}
 			}
 		}
 	}
@@ -233,28 +252,30 @@ func main() {
 		doNext([]byte{a}, 0)
 		for _, b := range alpha {
 			do([]byte{a, b}, "exhaustive-len2", "")
-			doNext([]byte{a, b}, 0)
-			doNext([]byte{a, b}, 1)
+			if thorough || rng.Intn(8) == 0 {
+				doNext([]byte{a, b}, 0)
+				doNext([]byte{a, b}, 1)
+			}
 			for _, c := range alpha {
-				if thorough || rng.Intn(6) == 0 {
+				if thorough || rng.Intn(60) == 0 {
 					do([]byte{a, b, c}, "exhaustive-len3", "")
 				}
 			}
 		}
 	}
 	// 4. truncations and length-field changes of the valid corpus
-	for _, v := range vs {
+	for vk, v := range vs {
 		c := v.c
 		for k := 0; k < len(c); k++ {
-			if len(c) > 200 && !thorough && k > 80 && k < len(c)-24 && k%41 != 0 {
+			if len(c) > 100 && !thorough && k > 60 && k < len(c)-16 && k%97 != 0 {
 				continue
 			}
-			do(append([]byte(nil), c[:k]...), "truncation", v.name)
+			doX(append([]byte(nil), c[:k]...), expr(vk, "(take %d %s)", k, names[vk]), "truncation", v.name)
 		}
 		lf := lengthFields(c)
 		for _, o := range lf {
 			vals := []int{0, 1, 2, int(c[o]) - 1, int(c[o]) + 1, 0x7F, 0x80, 0xFF}
-			if !thorough && len(lf) > 40 {
+			if !thorough && len(lf) > 30 {
 				vals = []int{0, int(c[o]) - 1, int(c[o]) + 1, 0xFF}
 			}
 			seen := map[byte]bool{c[o]: true}
@@ -266,22 +287,22 @@ func main() {
 				seen[b] = true
 				m := append([]byte(nil), c...)
 				m[o] = b
-				do(m, "lenfield-change", fmt.Sprintf("%s@%d=%d", v.name, o, b))
+				doX(m, expr(vk, "(upd %s %d %d)", names[vk], o, b), "lenfield-change", fmt.Sprintf("%s@%d=%d", v.name, o, b))
 			}
 		}
 	}
 	// 5. random splices of valid configs and regression inputs
 	pool := append(append([]named{}, vs...), regressions()...)
-	ns := 1500
+	ns := 500
 	if thorough {
 		ns = 60000
 	}
 	for i := 0; i < ns; i++ {
 		a, b := pool[rng.Intn(len(pool))].c, pool[rng.Intn(len(pool))].c
-		if len(a) > 300 {
+		if len(a) > 100 {
 			a = a[:rng.Intn(40)+1]
 		}
-		if len(b) > 300 {
+		if len(b) > 100 {
 			k := rng.Intn(len(b))
 			b = b[k:]
 			if len(b) > 60 {
@@ -304,7 +325,7 @@ func main() {
 		do(m, "splice", "")
 	}
 	// 6. random strings over the tag alphabet with small arguments
-	nr := 2500
+	nr := 900
 	if thorough {
 		nr = 100000
 	}
